@@ -27,6 +27,10 @@ import (
 // completed.
 var ErrTimeout = dtlserrors.ErrNetBufferTimeout
 
+// maxBufferedPackets bounds the number of datagrams a PacketBuffer holds for a
+// reader that has not picked them up yet.
+const maxBufferedPackets = 4096
+
 // AddrPacket is a packet payload and the associated remote address from which
 // it was received.
 type AddrPacket struct {
@@ -75,6 +79,15 @@ func (b *PacketBuffer) WriteTo(pkt []byte, addr net.Addr) (int, error) {
 		b.mutex.Unlock()
 
 		return 0, io.ErrClosedPipe
+	}
+
+	// A reader that does not keep up loses datagrams, as with any UDP receive
+	// queue: the buffer does not grow without bound on behalf of a peer nobody
+	// has authenticated yet.
+	if b.full && len(b.packets) >= maxBufferedPackets {
+		b.mutex.Unlock()
+
+		return len(pkt), nil
 	}
 
 	var notify chan struct{}
